@@ -165,7 +165,7 @@ func checkC09(w *World, r *Report) {
 			continue
 		}
 		// 2. same directory
-		dst := w.Resolve(c.Args[dstIdx])
+		dst := w.throughRecvPathHelper(w.Resolve(c.Args[dstIdx]))
 		dstDir, dstName := "", ""
 		if jc, ok := dst.(*ssa.Call); ok && (calleeName(&jc.Call) == "path.Join" || calleeName(&jc.Call) == "path/filepath.Join") {
 			if el := w.variadicElems(jc.Call.Args[0]); len(el) == 2 {
@@ -351,7 +351,10 @@ func checkC09(w *World, r *Report) {
 						continue
 					}
 					use := w.publishedNameUse(in, helper, dstIdx)
-					okUse := use == "os.Rename:dst" || use == "os.Open"
+					okUse := use != ""
+					for _, u1 := range strings.Split(use, "+") { // a shared path helper serves both the open and the rename
+						okUse = okUse && (u1 == "os.Rename:dst" || u1 == "os.Open")
+					}
 					r.Check(okUse, "who-may-write.published-name", FuncName(fn)+": use of \""+publishedName+"\"", w.InstrPos(in),
 						"used as "+use, "the published file name flows to "+use+": only the rename destination and a read-only open may name it")
 				}
@@ -376,21 +379,7 @@ func checkC09(w *World, r *Report) {
 			arg := w.Resolve(ci.Common().Args[0])
 			dir, name := "", ""
 			// a helper method of the same receiver that returns the joined path
-			if hc, ok := arg.(*ssa.Call); ok {
-				if g := hc.Call.StaticCallee(); g != nil && g.Blocks != nil && w.InModule(g) && len(hc.Call.Args) == 1 && w.AP(hc.Call.Args[0]) == "recv" {
-					var inner ssa.Value
-					nret := 0
-					allInstrs(g, func(in ssa.Instruction) {
-						if rt, ok := in.(*ssa.Return); ok && len(rt.Results) == 1 && rt.Block() != g.Recover {
-							nret++
-							inner = w.Resolve(rt.Results[0])
-						}
-					})
-					if nret == 1 {
-						arg = inner
-					}
-				}
-			}
+			arg = w.throughRecvPathHelper(arg)
 			if jc, ok := arg.(*ssa.Call); ok && strings.HasSuffix(calleeName(&jc.Call), ".Join") {
 				if el := w.variadicElems(jc.Call.Args[0]); len(el) == 2 {
 					dir = w.AP(el[0])
@@ -596,4 +585,30 @@ func codecGlobals(w *World, fn *ssa.Function, method string) []string {
 		out = append(out, w.AP(recv))
 	}
 	return out
+}
+
+// throughRecvPathHelper: v is the call of a module method of the same receiver with one return
+// statement (a helper that returns the joined path): the returned expression, which is in the
+// receiver's terms too; else v.
+func (w *World) throughRecvPathHelper(v ssa.Value) ssa.Value {
+	hc, ok := v.(*ssa.Call)
+	if !ok {
+		return v
+	}
+	g := hc.Call.StaticCallee()
+	if g == nil || g.Blocks == nil || !w.InModule(g) || len(hc.Call.Args) != 1 || w.AP(hc.Call.Args[0]) != "recv" {
+		return v
+	}
+	var inner ssa.Value
+	nret := 0
+	allInstrs(g, func(in ssa.Instruction) {
+		if rt, ok := in.(*ssa.Return); ok && len(rt.Results) == 1 && rt.Block() != g.Recover {
+			nret++
+			inner = w.Resolve(rt.Results[0])
+		}
+	})
+	if nret == 1 {
+		return inner
+	}
+	return v
 }
